@@ -26,15 +26,21 @@ GEN = "gen/Gen_ConvValue.tla"
 # ------------------------------------------------------------------------------------------------
 # lattice runs
 
-def run_lattices(chk, lattices, invariants=("Laws", "Emit"), parallel=2, workers=8):
+def run_lattices(chk, lattices, invariants=("Laws", "Emit"), parallel=2, workers=8, coverage=True):
+    """`coverage` (TLC -coverage 1: per-action counts for the vacuity guard) costs ~2.5x on this spec; the thorough tier
+    turns it off and the guard is the state count instead (cells and (cell, g) pairs exist beyond the shards)."""
     jobs = []
     for consts in lattices:
         jobs.append(dict(module_path=MC, cfg=tlc.make_cfg(constants=consts, invariants=list(invariants)),
-                         constants=consts, coverage=True, workers=workers, timeout=6000))
+                         constants=consts, coverage=coverage, workers=workers, timeout=12000))
     tables = []
     for r in tlc.run_many(jobs, parallel=parallel):
         need = ("PickCfg",) + (("PickG",) if r.constants.get("GroupMode") != "none" else ())
         chk.add_tlc(r, vacuity_actions=need)
+        shards_n = len(r.constants["Ns"]) * len(r.constants["Ms"])
+        cells = r.distinct - 1 - shards_n
+        if r.ok and (cells < max(1, shards_n // 4) or (r.constants.get("GroupMode") != "none" and cells < shards_n // 2)):
+            raise RuntimeError("vacuity: lattice run of %s visited only %d states for %d shards" % (r.module, r.distinct, shards_n))
         if not r.ok:
             chk.spec_violation(r, "convolution laws fail in the specification itself")
         tables += [c for c in r.cases if c["kind"] == "taptable"]
